@@ -19,6 +19,7 @@ ap.add_argument("--tier", default="quick")
 ap.add_argument("--skip-tests", action="store_true")
 ap.add_argument("--src", default=None)
 ap.add_argument("--as", dest="as_index", default=None, help="index to store the seed under")
+ap.add_argument("--also", default="", help="comma list of other properties' quick checks to run on the changed copy")
 a = ap.parse_args()
 src = a.src or "/tmp/seed-%s-out" % a.prop
 diff = os.path.join(src, "change%s.diff" % a.i)
@@ -81,6 +82,15 @@ try:
         if r.returncode == 1:
             break
     meta["check"] = res
+    also = {}
+    for other in [x for x in a.also.split(",") if x]:
+        t0 = time.time()
+        r = subprocess.run(["/venv/bin/python", "-m", "mc.run", other, "--tier", "quick"], cwd="/verif", env=env,
+                           capture_output=True, text=True)
+        also[other] = {"rc": r.returncode, "signatures": re.findall(r"signature: (\S+)", r.stdout)[:6],
+                       "wall_s": round(time.time() - t0, 1)}
+    if also:
+        meta["other_properties_checks"] = also
     prev_path = "/verif/seeded/%s-%s/meta.json" % (a.prop, a.as_index or a.i)
     if a.skip_tests and os.path.exists(prev_path):
         prev = json.load(open(prev_path))
@@ -102,7 +112,7 @@ try:
                    "pytest -q --timeout=900 (2 IDNA tests deselected) on changed copy" if not a.skip_tests else "tests skipped",
                    "mc.run %s --tier %s with DNSPYTHON_REPO=<changed copy>" % (a.prop, a.tier)]
     json.dump(meta, open(out + "/meta.json", "w"), indent=1)
-    print(json.dumps({k: meta[k] for k in ("property", "index", "confirmed", "caught")}), 
+    print(json.dumps({k: meta[k] for k in ("property", "index", "confirmed", "caught")}), "also:", {k: (v["rc"], v["signatures"][:1]) for k, v in also.items()},
           "demo:", rc0, rc1, "tests:", meta.get("changed_tests", {}).get("tail", "-"), "check:", {k: (v["rc"], v["signatures"][:2]) for k, v in res.items()})
 finally:
     shutil.rmtree(d, ignore_errors=True)
